@@ -831,6 +831,9 @@ def _check_assembly(res, rng, cname, mesh, N_poly, r, worst, pool_cpu=None, symm
         if tuple(wl2[i]) != tuple(est.weighted_l2(e, r)):
             report(res, 'C09:estimate_weighted_l2-differs-from-weighted_l2:%s' % cname, dict(elem=describe(e)))
     if pool_cpu is not None:
+        # a second estimator (other orders) is constructed on the same mesh BEFORE the pool calls of the first one: the
+        # workers must compute with the estimator whose method is called, not with the one constructed last
+        other = make_estimator(mesh, N_poly=1 if N_poly != 1 else 3)      # noqa: F841 (alive during the pool calls)
         with cpu_count(pool_cpu):
             eta_mp = est.estimate_sobolev(elems, r, use_mp=True)
             wl2_mp = est.estimate_weighted_l2(elems, r, use_mp=True)
